@@ -166,6 +166,20 @@ func init() {
 		Outside:     []string{"histories longer than 3, more than 2 temporary VMs, pools larger than 3 names", "instantiate/call/discard operations, LoadPkg autoloading from files"},
 	})
 
+	reg(Check{
+		ID:  "C20",
+		Pkg: "verif/harness/c20",
+		Runs: []RunDef{
+			{Fn: "H_order", Fuel: 30_000_000, Tier: "quick", Reach: []string{"end"}},
+			{Fn: "H_ordered_map", Params: k(3), Tier: "quick", Reach: []string{"end"}},
+			{Fn: "H_ordered_map", Params: k(4), Tier: "thorough", Reach: []string{"end"}},
+			{Fn: "H_pairs", Fuel: 30_000_000, Tier: "quick", Reach: []string{"end"}},
+		},
+		Rule:        rule + "; Go's map iteration order is the adversary and is made a symbolic choice: every range over a Go map with 2..3 entries executed inside origami code (up to 4 such ranges per path) takes its order from a fresh symbolic permutation, all orders are explored as sibling paths, and the output must equal the insertion-order run of the same template in the same path; OrderedMap Set/Delete histories against a slice model; all ordered pairs (A then B vs B alone) of the templates on fresh VMs in one engine process",
+		Assumptions: []string{"maps with more than 3 entries and the 5th and later permutable ranges of a path iterate in insertion order"},
+		Outside:     []string{"byte-identical diagnostics / exit status across fresh OS processes", "std/php output buffers and spl registries (not loaded)", "programs outside the 10 templates"},
+	})
+
 	c17 := func(fn string, p map[string]int) RunDef {
 		return RunDef{Fn: fn, Params: p, Tier: "quick", Reach: []string{"end"}}
 	}
